@@ -536,7 +536,6 @@ def explore(ctx):
 
 
 def search(ctx, broken):
-    ctx.tier = 'thorough'
     real = Real()
     explore_trees(ctx, real)
 
